@@ -124,6 +124,7 @@ let policy_of_sx = function
   | s -> failwith ("bad policy " ^ to_string s)
 
 let sx_of_pattern (p : (bool * Model.z list) list) : Sexp.t =
+  if p = [] then L [A "pat"; A "x"] else      (* the JSON view of the empty pattern is one empty literal *)
   L (A "pat" :: List.concat_map (fun (w, lit) ->
       (if w then [L [A "w"]] else []) @ (if (not w) || lit <> [] then [A (atom_of_str lit)] else [])) p)
 
